@@ -70,13 +70,9 @@ Proof.
 Qed.
 
 (* ------------------------------------------------------------------------------------------ *)
-(* T3                                                                                           *)
+(* T3 (removed: the family-level length test is gone, see parse_family_grammar)          *)
 (* ------------------------------------------------------------------------------------------ *)
-Theorem parse_family_multi_diag : forall l : list meta, List.length l <> 1 ->
-  edit_parse_family (MList "edit" l) = Diag DUnexpectedNested.
-Proof.
-  intros l H. destruct l as [|a [|b l]]; try reflexivity. exfalso; apply H; reflexivity.
-Qed.
+
 
 (* ------------------------------------------------------------------------------------------ *)
 (* T4                                                                                           *)
@@ -599,20 +595,28 @@ Qed.
 (* ------------------------------------------------------------------------------------------ *)
 (* T2                                                                                           *)
 (* ------------------------------------------------------------------------------------------ *)
-Theorem parse_family_single : forall x : sitem, nonempty_sitem x = true ->
-  forget (edit_parse_family (render_fam (FList [x]))) = if legal_fam (FList [x]) then Some (denote_fam (FList [x])) else None.
+Theorem parse_family_grammar : forall e : fam_ast, nonempty_fam e = true ->
+  forget (edit_parse_family (render_fam e)) = if legal_fam e then Some (denote_fam e) else None.
 Proof.
-  intros x Hne.
-  assert (E : edit_parse_family (render_fam (FList [x])) = foldM (sol_step false false) default_ea (map render_sitem [x])).
-  { simpl map. rewrite foldM_single. unfold edit_parse_family, parse_family, sol_step. simpl.
+  intros [| |l] Hne; try reflexivity.
+  simpl in Hne. apply andb_true_iff in Hne. destruct Hne as [Hl Hne].
+  assert (E : edit_parse_family (render_fam (FList l)) = foldM (sol_step false false) default_ea (map render_sitem l)).
+  { destruct l as [|x [|y l']]; [discriminate| |reflexivity].
+    simpl map. rewrite foldM_single. unfold edit_parse_family, parse_family, sol_step. simpl.
     destruct x as [c|ss].
     - simpl. rewrite sect_not_file. reflexivity.
     - reflexivity. }
   rewrite E. rewrite sitems_flat by reflexivity. rewrite estep_fold, forget_bind.
   change (get_t false default_ea) with empty_t.
   rewrite sects_run.
-  - unfold legal_fam, denote_fam. destruct (legal_sects (flatS false [x])); reflexivity.
-  - apply flatS_nonempty. simpl. rewrite Hne. reflexivity.
+  - unfold legal_fam, denote_fam. destruct (legal_sects (flatS false l)); reflexivity.
+  - apply flatS_nonempty. exact Hne.
+Qed.
+
+Theorem parse_family_single : forall x : sitem, nonempty_sitem x = true ->
+  forget (edit_parse_family (render_fam (FList [x]))) = if legal_fam (FList [x]) then Some (denote_fam (FList [x])) else None.
+Proof.
+  intros x Hne. apply parse_family_grammar. simpl. rewrite Hne. reflexivity.
 Qed.
 
 Theorem parse_family_bare :
@@ -759,12 +763,12 @@ Proof.
   unfold parse_family. intros He.
   destruct (get_list m) as [[l|]|d]; [| |discriminate].
   - destruct l as [|mv [|b l]].
-    + apply parse_sol_nested_ok; auto.
+    + apply (foldM_inv ea_ok); auto. intros s a s'. apply sol_step_ok.
     + destruct (is_name "file" mv); [|apply parse_sol_nested_ok; auto].
       destruct (get_list mv) as [[l|]|d]; [| |discriminate].
       * apply (foldM_inv ea_ok); auto. intros s a s'. apply file_group_step_ok.
       * intros H; inversion H; subst. exact (set_t_ok false e _ He (all_t_ok _ _)).
-    + apply parse_sol_nested_ok; auto.
+    + apply (foldM_inv ea_ok); auto. intros s a s'. apply sol_step_ok.
   - intros H; inversion H; subst. exact (set_t_ok false e _ He (all_t_ok _ _)).
 Qed.
 
@@ -775,9 +779,9 @@ Theorem parse_family_names_nodup : forall (m : meta) (e : edit_actor), edit_pars
 Proof. intros m e H. apply (parse_family_ok default_ea m e default_ok H). Qed.
 
 Print Assumptions parse_grammar.
+Print Assumptions parse_family_grammar.
 Print Assumptions parse_family_single.
 Print Assumptions parse_family_bare.
-Print Assumptions parse_family_multi_diag.
 Print Assumptions unknown_key_top.
 Print Assumptions unknown_key_nested.
 Print Assumptions nested_file_top.
